@@ -405,7 +405,16 @@ pub fn run_worker<W: World>(world: W, a: &WorkerArgs) -> i32 {
         mine.store(i, Ordering::SeqCst);
         let rs = rng::run_seed(a.seed, wname, i);
         let mut rng = Rng::new(rs);
-        let trace = world.generate(&a.prop, a.tier, &mut rng);
+        let trace = match std::panic::catch_unwind(std::panic::AssertUnwindSafe(|| world.generate(&a.prop, a.tier, &mut rng))) {
+            Ok(t) => t,
+            Err(p) => {
+                let _ = std::fs::write(
+                    format!("{}.err", a.out_path),
+                    format!("generator panicked at run index {i}: {}", panic_message(&p)),
+                );
+                return 2;
+            }
+        };
         let out = exec_trace(&world, &a.prop, &trace, &known);
         agg.runs += 1;
         for (k, v) in &out.obs.counters {
@@ -639,6 +648,11 @@ pub fn run_batch<W: World>(world: W, args: &BatchArgs, report: &Report) -> i32 {
         }
     }
     if worker_failed {
+        for k in 0..workers {
+            if let Ok(msg) = std::fs::read_to_string(format!("{scratch}/w{k}.json.err")) {
+                report.line(&format!("HARNESS-ERROR: worker {k}: {msg}"));
+            }
+        }
         report.line("HARNESS-ERROR: a worker process failed (crashed or could not write its result)");
         return 2;
     }
